@@ -36,6 +36,10 @@ import (
 // so that the loop looks at the timers while they are being published. The oracle is the same one-sided clock
 // comparison, made inside the harness-owned callback: a callback that starts less than interval(0) after the clock
 // reading taken before its registration call began is a violation; a late callback never is.
+//
+// A third phase ("crowd", see c34RunCrowd) is about clause (a) for timers that are stopped between being collected by
+// the loop and getting a worker slot: more timers than one loop pass can run at once expire together, their callbacks
+// are held in a harness gate, Stop* calls are made while all slots are taken, then the gate is opened.
 
 const (
 	c34ActNone = iota
@@ -1352,30 +1356,55 @@ func TestC34(t *testing.T) {
 		"second phase (registration storm): 2..8 goroutines each repeat a drawn pattern of 1..4 registrations {New/NewTimer, one of 1..8 shared ids, interval 1h/10min/1s/1ms/100us, " +
 		"0..2 Gosched before, 0..3 Gosched after, then nothing / StopTimers(id) / StopTimers(all ids)} 20..600 times against a loop with resolution 1ns..100us (1/2/16 shards), " +
 		"bounded by registration count, not by time; every callback start is compared with the clock read before its registration. " +
-		"non-trivial: a sentinel timer (200us, own id) saw the loop tick while the goroutines were registering; distinct by program text")
+		"non-trivial: a sentinel timer (200us, own id) saw the loop tick while the goroutines were registering; distinct by program text. " +
+		"third phase (crowd): 334..500 timers with distinct ids (1..5 profiles {New/NewTimer, interval 1..10 ms, every callback returns keep / keep=false / error}) are registered and expired before the loop " +
+		"(1/2/3/16 shards, resolution 1..5 ms) starts, every callback blocks on a harness gate; once 333 callbacks are running (all worker slots of the loop pass, the loop is stuck handing out the rest) " +
+		"1..4 drawn calls {StopTimers(1..60 picks among the timers whose callback has not started + 0..3 among all), StopOthers(0..12 excluded), StopAllTimers} are made, 0..6 of the stopped ids are registered again, " +
+		"then the gate is opened and a timer registered after that has ticked twice before shutdown. " +
+		"non-trivial: all 333 slots were held in the gate during the calls and at least one timer was stopped between being collected and starting; distinct by program text")
 	r.Floor(80)
 	r.Assume("one callback start after a Stop* call returned is tolerated (a run may be past its context check), none when the Stop* came from inside the timer's own callback",
 		"removals are observed through NewSimpleTimer's whenRemoved hook; timers registered through SimpleTimers.New have no hook and are only subject to clauses (a) and (c)",
 		"intervals are >= 1 ms (program phase) / >= 100 us (storm phase); clock readings are monotonic and taken before registration / at callback entry / at callback exit, so lateness of the machine cannot produce a violation",
-		"storm phase: resolutions down to 1 ns are accepted by NewSimpleTimers (production uses 33 ms); a callback that was collected but had not started when the case was closed is not judged (a miss, never a false alarm)")
+		"storm phase: resolutions down to 1 ns are accepted by NewSimpleTimers (production uses 33 ms); a callback that was collected but had not started when the case was closed is not judged (a miss, never a false alarm)",
+		"crowd phase: one loop pass runs at most 333 callbacks at the same time (maxTimerSemsize) and the loop does not begin another pass before it has handed out every timer of the current one; "+
+			"when exactly 333 callbacks sit in the harness gate no other timer of the pass can be between its stopped test and its callback, so no callback start after a Stop* call returned is tolerated there; "+
+			"if more than 333 callbacks are ever running before the gate opens the case is not judged by that clause; a stopped timer whose goroutine had not been scheduled when the case was closed is a miss, never a false alarm")
 
-	// a rapid fail file replays one phase: the storm phase marks its cases with "c34-storm"
-	replayStorm, replayProgram := false, false
+	// a rapid fail file replays one phase: the storm phase marks its cases with "c34-storm", the crowd phase with "c34-crowd"
+	replayStorm, replayCrowd, replayProgram := false, false, false
 
 	if f := os.Getenv("VERIF_RAPID_FAILFILE"); f != "" {
 		b, _ := os.ReadFile(f)
 		replayStorm = strings.Contains(string(b), "c34-storm")
-		replayProgram = !replayStorm
+		replayCrowd = !replayStorm && strings.Contains(string(b), "c34-crowd")
+		replayProgram = !replayStorm && !replayCrowd
 	}
 
 	r.Checks(300, 16000)
 	r.ShrinkTime(30 * time.Second)
 
-	if !replayStorm {
+	if !replayStorm && !replayCrowd {
 		rapid.Check(t, c34ProgramCase(r))
 	}
 
 	if r.Failed() || t.Failed() || replayProgram {
+		return
+	}
+
+	// ---- phase 3: crowd
+	r.Checks(40, 2400)
+	r.ShrinkTime(10 * time.Second)
+
+	crowdStart := time.Now()
+
+	if !replayStorm {
+		rapid.Check(t, func(rt *rapid.T) { c34RunCrowd(rt, r, c34GenCrowd(rt)) })
+	}
+
+	r.Extra("crowd_phase_wall_s", time.Since(crowdStart).Seconds())
+
+	if r.Failed() || t.Failed() || replayCrowd {
 		return
 	}
 
